@@ -598,6 +598,13 @@ pub struct Dec<'a> {
 }
 
 impl<'a> Dec<'a> {
+    pub fn new(inp: &'a [u8]) -> Dec<'a> {
+        Dec { inp, pos: 0, depth: 0 }
+    }
+    /// Canonical Compact<u32> (count prefix).
+    pub fn compact_u32(&mut self) -> Result<u64, Rej> {
+        self.compact(4).map(|x| x as u64)
+    }
     fn take(&mut self, n: usize) -> Result<&'a [u8], Rej> {
         if self.inp.len() - self.pos < n {
             return Err(Rej::Reject);
